@@ -86,17 +86,78 @@ Lemma nth_repeat_true j n : j < n -> nth j (repeat true n) false = true.
 Proof. revert j; induction n; intros [|j] H; cbn; try lia; auto. apply IHn. lia. Qed.
 
 (* ------------------------------------------------------------------ order on keys *)
-Definition kle (a b : ev) : Prop := (key a <= key b)%Q.
-
-Lemma leb_desc_iff a b : leb_desc a b = true <-> kle (fst b) (fst a).
-Proof. unfold leb_desc, kle. apply Qle_bool_iff. Qed.
-Lemma leb_desc_total a b : leb_desc a b = true \/ leb_desc b a = true.
+(* the code's key order: an absent ts (None, -inf) is below everything *)
+Lemma key_leb_total a b : key_leb a b = true \/ key_leb b a = true.
 Proof.
-  rewrite !leb_desc_iff. unfold kle.
-  destruct (Qlt_le_dec (key (fst a)) (key (fst b))) as [H|H]; [right; now apply Qlt_le_weak|left; exact H].
+  destruct a as [x|], b as [y|]; cbn; auto. rewrite !Qle_bool_iff.
+  destruct (Qlt_le_dec x y) as [H|H]; [left; now apply Qlt_le_weak|right; exact H].
 Qed.
+Lemma key_leb_trans a b c : key_leb a b = true -> key_leb b c = true -> key_leb a c = true.
+Proof.
+  destruct a as [x|], b as [y|], c as [z|]; cbn; auto; try discriminate.
+  rewrite !Qle_bool_iff. apply Qle_trans.
+Qed.
+Lemma key_leb_some t k : key_leb (Some t) k = true -> exists u, k = Some u /\ (t <= u)%Q.
+Proof. destruct k as [u|]; cbn; [|discriminate]. rewrite Qle_bool_iff. eauto. Qed.
+
+Lemma leb_desc_total a b : leb_desc a b = true \/ leb_desc b a = true.
+Proof. unfold leb_desc. destruct (key_leb_total (key (fst a)) (key (fst b))); auto. Qed.
 Lemma leb_desc_trans a b c : leb_desc a b = true -> leb_desc b c = true -> leb_desc a c = true.
-Proof. rewrite !leb_desc_iff. unfold kle. intros H1 H2. eapply Qle_trans; eauto. Qed.
+Proof. unfold leb_desc. intros H1 H2. eapply key_leb_trans; eauto. Qed.
+
+(* order in time: a statement about the events that have a ts *)
+Definition tge (m : Q) (y : ev) : Prop := forall u, e_ts y = Some u -> (m <= u)%Q.
+Definition tsorted (l : list ev) : Prop := StronglySorted Qle (timed l).
+
+Lemma timed_app l1 l2 : timed (l1 ++ l2) = timed l1 ++ timed l2.
+Proof.
+  induction l1 as [|a l1 IH]; cbn [timed app]; [reflexivity|].
+  destruct (e_ts a); [cbn [app]; now rewrite IH|exact IH].
+Qed.
+Lemma in_timed u l : In u (timed l) <-> exists y, In y l /\ e_ts y = Some u.
+Proof.
+  induction l as [|a l IH]; cbn [timed].
+  - split; [intros []|intros (y & [] & _)].
+  - destruct (e_ts a) as [t|] eqn:E.
+    + split.
+      * intros [<-|H]; [exists a; split; [now left|exact E]|].
+        apply IH in H. destruct H as (y & Hy & Ey). exists y. split; [now right|exact Ey].
+      * intros (y & [<-|Hy] & Ey); [left; congruence|right; apply IH; eauto].
+    + rewrite IH. split.
+      * intros (y & Hy & Ey). exists y. split; [now right|exact Ey].
+      * intros (y & [<-|Hy] & Ey); [congruence|eauto].
+Qed.
+Lemma Forall_timed m l : Forall (Qle m) (timed l) <-> Forall (tge m) l.
+Proof.
+  rewrite !Forall_forall. split.
+  - intros H y Hy u Eu. apply H. apply in_timed. eauto.
+  - intros H u Hu. apply in_timed in Hu. destruct Hu as (y & Hy & Eu). exact (H y Hy u Eu).
+Qed.
+Lemma tge_trans t u y : (t <= u)%Q -> tge u y -> tge t y.
+Proof. intros L H w Hw. eapply Qle_trans; [exact L|now apply H]. Qed.
+Lemma tge_eq m a b : e_ts a = e_ts b -> tge m b -> tge m a.
+Proof. unfold tge. intros ->. auto. Qed.
+
+Lemma tsorted_nil : tsorted [].
+Proof. apply SSorted_nil. Qed.
+Lemma tsorted_cons x r :
+  tsorted (x :: r) <-> tsorted r /\ (forall t, e_ts x = Some t -> Forall (tge t) r).
+Proof.
+  unfold tsorted. cbn [timed]. destruct (e_ts x) as [t|].
+  - split.
+    + intros H. inversion H as [|? ? Hs Hf]; subst. split; [exact Hs|].
+      intros t' [= <-]. now apply Forall_timed.
+    + intros [Hs Hf]. constructor; [exact Hs|]. apply Forall_timed. now apply Hf.
+  - split; [intros H; split; [exact H|intros ? [=]]|tauto].
+Qed.
+Lemma tsorted_app_inv l1 l2 : tsorted (l1 ++ l2) ->
+  tsorted l2 /\ (forall a t, In a l1 -> e_ts a = Some t -> Forall (tge t) l2).
+Proof.
+  induction l1 as [|x l1 IH]; cbn [app]; intros H; [split; [exact H|intros ? ? []]|].
+  apply tsorted_cons in H. destruct H as [Hs Hf]. destruct (IH Hs) as [I1 I2].
+  split; [exact I1|]. intros a t [<-|Ha] Et; [|now apply (I2 a)].
+  specialize (Hf t Et). apply Forall_app in Hf. tauto.
+Qed.
 
 Lemma push_front_perm x front : Permutation (push_front x front) (x :: front).
 Proof. unfold push_front. rewrite isort_perm. rewrite Permutation_app_comm. reflexivity. Qed.
@@ -237,12 +298,6 @@ Proof.
   - intros j Hj Hh. apply e; auto. rewrite E; auto.
 Qed.
 
-(* time-order invariant *)
-Definition sinv (front : list item) (fs : list fstate) : Prop :=
-  StronglySorted (Rb leb_desc) front /\
-  (forall e j, In (e, j) front -> Forall (kle e) (file_events (nth j fs F0))) /\
-  (forall j, StronglySorted kle (file_events (nth j fs F0))).
-
 Lemma in_pend_streams y fs : In y (List.concat (map file_events fs)) ->
   exists j, j < List.length fs /\ In y (file_events (nth j fs F0)).
 Proof.
@@ -256,6 +311,16 @@ Definition proj (j : nat) (l : list item) : list ev :=
 Definition pendi (j : nat) (front : list item) (fs : list fstate) : list ev :=
   proj j front ++ file_events (nth j fs F0).
 
+(* time-order invariant: the front is in the code's key order, and for every file the events that have a
+   ts - its representative in the front followed by what the file will still yield - are non-decreasing *)
+Definition sinv (front : list item) (fs : list fstate) : Prop :=
+  StronglySorted (Rb leb_desc) front /\ (forall j, tsorted (pendi j front fs)).
+
+Lemma in_proj e j l : In (e, j) l -> In e (proj j l).
+Proof.
+  intros H. unfold proj. apply in_map_iff. exists (e, j). split; [reflexivity|].
+  apply filter_In. split; [exact H|]. cbn. apply Nat.eqb_refl.
+Qed.
 Lemma proj_cons j e i l : proj j ((e, i) :: l) = (if Nat.eqb i j then [e] else []) ++ proj j l.
 Proof. unfold proj. cbn [filter snd]. destruct (Nat.eqb i j); reflexivity. Qed.
 Lemma proj_app j l1 l2 : proj j (l1 ++ l2) = proj j l1 ++ proj j l2.
@@ -324,6 +389,13 @@ Proof.
     exists (push_front (x, i) front), (upd i s' fs), en. split; [reflexivity|].
     assert (Pm : Permutation (map snd (push_front (x, i) front)) (i :: map snd front)).
     { rewrite (Permutation_map snd (push_front_perm (x, i) front)). reflexivity. }
+    assert (PJ : forall j, pendi j (push_front (x, i) front) (upd i s' fs) = pendi j front fs).
+    { intros j. unfold pendi.
+      rewrite <- (proj_perm_nodup j ((x, i) :: front) (push_front (x, i) front));
+        [|cbn [map snd]; constructor; auto|symmetry; apply push_front_perm].
+      rewrite proj_cons. destruct (Nat.eqb i j) eqn:E.
+      * apply Nat.eqb_eq in E. subst j. rewrite nth_upd_eq by auto. rewrite (proj_notin i front NotIn), Ev. reflexivity.
+      * apply Nat.eqb_neq in E. rewrite nth_upd_neq by auto. reflexivity. }
     repeat split.
     + now rewrite length_upd.
     + eapply Permutation_NoDup; [symmetry; exact Pm|]. constructor; auto.
@@ -356,24 +428,16 @@ Proof.
     + pose proof (total_len_upd i s' fs Li) as T.
       rewrite (Permutation_length (push_front_perm (x, i) front)). cbn [List.length]. lia.
     + apply push_front_sorted.
-    + intros e0 j Hin. destruct H0 as (_ & s2 & s3).
-      apply (Permutation_in _ (push_front_perm _ _)) in Hin. destruct Hin as [E|Hin].
-      * injection E as <- <-. rewrite nth_upd_eq by auto. specialize (s3 i). rewrite Ev in s3.
-        inversion s3; subst. assumption.
-      * destruct (c _ _ Hin) as (_ & _ & Hn). rewrite nth_upd_neq by (intros ->; auto). now apply s2.
-    + intros j. destruct H0 as (_ & _ & s3). destruct (Nat.eq_dec j i) as [->|Ne].
-      * rewrite nth_upd_eq by auto. specialize (s3 i). rewrite Ev in s3. now inversion s3.
-      * rewrite nth_upd_neq by congruence. apply s3.
-    + intros j. unfold pendi.
-      rewrite <- (proj_perm_nodup j ((x, i) :: front) (push_front (x, i) front));
-        [|cbn [map snd]; constructor; auto|symmetry; apply push_front_perm].
-      rewrite proj_cons. destruct (Nat.eqb i j) eqn:E.
-      * apply Nat.eqb_eq in E. subst j. rewrite nth_upd_eq by auto. rewrite (proj_notin i front NotIn), Ev. reflexivity.
-      * apply Nat.eqb_neq in E. rewrite nth_upd_neq by auto. reflexivity.
+    + intros j. rewrite PJ. apply H0.
+    + exact PJ.
   - (* exhausted: disabled *)
     destruct (next_stop _ _ En) as (Ev & End & Fin & Rs).
     destruct (rest_nil _ Rs) as (Ev' & End' & Fin').
     exists front, (upd i s' fs), (upd i false en). split; [reflexivity|].
+    assert (PJ : forall j, pendi j front (upd i s' fs) = pendi j front fs).
+    { intros j. unfold pendi. destruct (Nat.eq_dec j i) as [->|Ne].
+      * rewrite nth_upd_eq by auto. congruence.
+      * rewrite nth_upd_neq by congruence. reflexivity. }
     repeat split.
     + now rewrite !length_upd.
     + exact b.
@@ -397,27 +461,18 @@ Proof.
       rewrite map_nth. congruence.
     + pose proof (total_len_upd i s' fs Li) as T. rewrite Rs in T. cbn [List.length] in T. lia.
     + apply H0.
-    + intros e0 j Hin. destruct H0 as (_ & s2 & _). destruct (c _ _ Hin) as (_ & _ & Hn).
-      rewrite nth_upd_neq by (intros ->; auto). now apply s2.
-    + intros j. destruct H0 as (_ & _ & s3). destruct (Nat.eq_dec j i) as [->|Ne].
-      * rewrite nth_upd_eq by auto. rewrite Ev'. constructor.
-      * rewrite nth_upd_neq by congruence. apply s3.
-    + intros j. unfold pendi. destruct (Nat.eq_dec j i) as [->|Ne].
-      * rewrite nth_upd_eq by auto. congruence.
-      * rewrite nth_upd_neq by congruence. reflexivity.
+    + intros j. rewrite PJ. apply H0.
+    + exact PJ.
   - rewrite (next_err _ _ _ En) in Oki. discriminate.
 Qed.
 
 Definition H0 : nat -> Prop := fun _ => False.
 
-Lemma kle_trans a b c : kle a b -> kle b c -> kle a c.
-Proof. unfold kle. apply Qle_trans. Qed.
-
 Lemma pop_inv front fs en e i front' :
   inv H0 front fs en -> pop front = Some ((e, i), front') ->
   i < List.length fs /\ nth i en false = true /\ inv (fun j => j = i) front' fs en /\
   Permutation (pend front fs) (e :: pend front' fs) /\ List.length front = S (List.length front') /\
-  (sinv front fs -> sinv front' fs /\ Forall (kle e) (pend front' fs)) /\
+  (sinv front fs -> sinv front' fs /\ (forall t, e_ts e = Some t -> Forall (tge t) (pend front' fs))) /\
   (forall j, pendi j front fs = (if Nat.eqb i j then [e] else []) ++ pendi j front' fs).
 Proof.
   intros (a & b & c & d & e0) Hp. apply pop_some in Hp. subst front.
@@ -429,6 +484,10 @@ Proof.
   assert (Hd : forall j, j < List.length fs -> j <> i -> In j (map snd front') \/ f_rest (nth j fs F0) = []).
   { intros j Hj Ne. destruct (d j Hj (fun f => f)) as [Hi|Hr]; [|now right].
     rewrite map_app in Hi. apply in_app_or in Hi. destruct Hi as [Hi|[Hi|[]]]; [now left|]. cbn in Hi. congruence. }
+  assert (PJ : forall j, pendi j (front' ++ [(e, i)]) fs = (if Nat.eqb i j then [e] else []) ++ pendi j front' fs).
+  { intros j. unfold pendi. rewrite proj_app, proj_cons. cbn [proj filter map app]. rewrite app_nil_r.
+    destruct (Nat.eqb i j) eqn:E; [|now rewrite app_nil_r].
+    apply Nat.eqb_eq in E. subst j. rewrite (proj_notin i front' b2). reflexivity. }
   split; [exact Li|]. split; [exact Eni|]. split; [|split; [|split; [|split]]].
   - repeat split; auto.
     + apply (c e1 j). apply in_or_app. now left.
@@ -438,23 +497,31 @@ Proof.
   - unfold pend. rewrite map_app. cbn [map fst]. rewrite <- app_assoc. cbn [app].
     symmetry. apply Permutation_middle.
   - rewrite app_length. cbn. lia.
-  - intros (s1 & s2 & s3). apply sorted_app_last in s1. destruct s1 as [s1 s1'].
-    split; [repeat split; auto; intros e1 j Hj; apply s2; apply in_or_app; now left|].
+  - intros (s1 & s2). apply sorted_app_last in s1. destruct s1 as [s1 s1'].
+    split.
+    { split; [exact s1|]. intros j. specialize (s2 j). rewrite PJ in s2. apply tsorted_app_inv in s2. apply s2. }
+    (* the popped event has a ts: everything still to come that has a ts is not earlier *)
+    intros t Ht.
+    assert (Kf : forall y j, In (y, j) front' -> exists u, e_ts y = Some u /\ (t <= u)%Q).
+    { intros y j Hy. rewrite Forall_forall in s1'. specialize (s1' _ Hy). unfold Rb, leb_desc, key in s1'.
+      cbn [fst] in s1'. rewrite Ht in s1'. now apply key_leb_some in s1'. }
     unfold pend. apply Forall_app. split.
     + apply Forall_forall. intros y Hy. apply in_map_iff in Hy. destruct Hy as ([y0 j] & <- & Hy).
-      rewrite Forall_forall in s1'. specialize (s1' _ Hy). unfold Rb in s1'. apply leb_desc_iff in s1'. exact s1'.
+      destruct (Kf _ _ Hy) as (u & Eu & Lu). cbn [fst]. intros w Hw. congruence.
     + apply Forall_forall. intros y Hy. apply in_pend_streams in Hy. destruct Hy as (j & Hj & Hy).
       destruct (Nat.eq_dec j i) as [->|Ne].
-      * specialize (s2 _ _ Hin). rewrite Forall_forall in s2. now apply s2.
+      * specialize (s2 i). rewrite PJ, Nat.eqb_refl in s2. cbn [app] in s2.
+        apply tsorted_cons in s2. destruct s2 as [_ s2]. specialize (s2 t Ht).
+        rewrite Forall_forall in s2. apply s2. unfold pendi. apply in_or_app. now right.
       * destruct (Hd j Hj Ne) as [Hi|Hr].
         -- apply in_map_iff in Hi. destruct Hi as ([ej j'] & Ej & Hi). cbn in Ej. subst j'.
-           rewrite Forall_forall in s1'. pose proof (s1' _ Hi) as K. unfold Rb in K. apply leb_desc_iff in K. cbn in K.
+           destruct (Kf _ _ Hi) as (u & Eu & Lu).
            assert (Hi' : In (ej, j) (front' ++ [(e, i)])) by (apply in_or_app; now left).
-           specialize (s2 _ _ Hi'). rewrite Forall_forall in s2. eapply kle_trans; [exact K|now apply s2].
+           specialize (s2 j). unfold pendi in s2. apply tsorted_app_inv in s2. destruct s2 as [_ s2].
+           specialize (s2 ej u (in_proj _ _ _ Hi') Eu). rewrite Forall_forall in s2.
+           eapply tge_trans; [exact Lu|now apply s2].
         -- destruct (rest_nil _ Hr) as (Ev & _). rewrite Ev in Hy. destruct Hy.
-  - intros j. unfold pendi. rewrite proj_app, proj_cons. cbn [proj filter map app]. rewrite app_nil_r.
-    destruct (Nat.eqb i j) eqn:E; [|now rewrite app_nil_r].
-    apply Nat.eqb_eq in E. subst j. rewrite (proj_notin i front' b2). reflexivity.
+  - exact PJ.
 Qed.
 
 Lemma all_rest_nil fs : (forall j, j < List.length fs -> f_rest (nth j fs F0) = []) ->
@@ -470,7 +537,7 @@ Lemma run_spec fuel : forall front fs en,
   inv H0 front fs en -> all_ok fs -> List.length front + total_len fs < fuel ->
   exists out, run fuel front fs en = (out, Done, map file_final fs) /\
     Permutation (map fst out) (pend front fs) /\
-    (sinv front fs -> StronglySorted kle (map fst out)) /\
+    (sinv front fs -> tsorted (map fst out)) /\
     (forall j, proj j out = pendi j front fs).
 Proof.
   induction fuel as [|fuel IH]; intros front fs en I Ok M; [lia|].
@@ -485,7 +552,8 @@ Proof.
     destruct (IH front2 fs2 en2 I2' Ok2 ltac:(lia)) as (o & Hr & Po & So & Jo).
     rewrite Hr. exists ((e, i) :: o). split; [now rewrite F2|]. split; [|split].
     + cbn [map fst]. rewrite Po, <- P2. symmetry. exact P1.
-    + intros Sv. destruct (S1 Sv) as [Sv1 Fa]. cbn [map fst]. constructor; [apply So, S2, Sv1|].
+    + intros Sv. destruct (S1 Sv) as [Sv1 Fa]. cbn [map fst]. apply tsorted_cons. split; [apply So, S2, Sv1|].
+      intros t Ht. specialize (Fa t Ht).
       apply Forall_forall. intros y Hy. rewrite Forall_forall in Fa. apply Fa.
       apply (Permutation_in _ (Permutation_sym P2)). apply (Permutation_in _ Po). exact Hy.
     + intros j. rewrite proj_cons, Jo, J2, J1. reflexivity.
@@ -494,7 +562,7 @@ Proof.
     { intros j Hj. destruct (d j Hj (fun f => f)) as [[]|Hr]. exact Hr. }
     exists []. rewrite A1. split; [reflexivity|]. split; [|split].
     + unfold pend. cbn [map app]. rewrite A2. constructor.
-    + intros _. constructor.
+    + intros _. apply tsorted_nil.
     + intros j. unfold pendi. cbn. destruct (Nat.lt_ge_cases j (List.length fs)) as [Hj|Hj].
       * destruct (d j Hj (fun f => f)) as [[]|Hr]. now destruct (rest_nil _ Hr) as (-> & _).
       * rewrite nth_overflow by exact Hj. reflexivity.
@@ -527,15 +595,16 @@ Proof.
     intros j. now rewrite J2, J1.
 Qed.
 
+(* every file's stream is ordered by ts: its events that have a ts are non-decreasing *)
 Definition streams_sorted (fs : list fstate) : Prop :=
-  Forall (fun s => StronglySorted kle (file_events s)) fs.
+  Forall (fun s => StronglySorted Qle (timed (file_events s))) fs.
 
 Theorem multi_spec files :
   let fs := map init_file files in
   all_ok fs ->
   exists out, multi files = (out, Done, map file_final fs) /\
     Permutation (map fst out) (List.concat (map file_events fs)) /\
-    (streams_sorted fs -> StronglySorted kle (map fst out)) /\
+    (streams_sorted fs -> StronglySorted Qle (timed (map fst out))) /\
     (forall j, proj j out = file_events (nth j fs F0)).
 Proof.
   intros fs Ok. unfold multi. fold fs.
@@ -555,12 +624,12 @@ Proof.
   { unfold fuel_of. cbn [List.length] in M2. lia. }
   exists out. split; [now rewrite Hr, F2|]. split; [|split].
   - rewrite Po, <- P2. reflexivity.
-  - intros Ss. apply So, S2. repeat split.
+  - intros Ss. apply So, S2. split.
     + constructor.
-    + intros e j [].
-    + intros j. destruct (Nat.lt_ge_cases j (List.length fs)) as [Hj|Hj].
+    + intros j. unfold pendi. cbn [proj filter map app].
+      destruct (Nat.lt_ge_cases j (List.length fs)) as [Hj|Hj].
       * unfold streams_sorted in Ss. rewrite Forall_forall in Ss. apply Ss. now apply nth_In.
-      * rewrite nth_overflow by exact Hj. rewrite F0_events. constructor.
+      * rewrite nth_overflow by exact Hj. rewrite F0_events. apply tsorted_nil.
   - intros j. rewrite Jo, J2. reflexivity.
 Qed.
 
@@ -855,70 +924,73 @@ Qed.
 (* ------------------------------------------------------------------ raw order implies stream order *)
 Local Close Scope Z_scope.
 
-Lemma updated_key job rank x x1 rk : updated job rank x = Ok (x1, rk) -> key x1 = key x.
-Proof.
-  intros Hu. destruct (core_ph _ _ (updated_core _ _ _ _ _ Hu)) as (_ & _ & E & _). unfold key. now rewrite E.
-Qed.
-
-Lemma pair_key b d : key (with_dur (with_ph b (Some "X"%string)) d) = key b.
-Proof. reflexivity. Qed.
+Lemma updated_ts job rank x x1 rk : updated job rank x = Ok (x1, rk) -> e_ts x1 = e_ts x.
+Proof. intros Hu. now destruct (core_ph _ _ (updated_core _ _ _ _ _ Hu)) as (_ & _ & E & _). Qed.
 
 Ltac leaf := cbn [fst snd]; constructor.
 
+(* a lower bound of the ts values of the raw events (and of the open B) bounds the stream's *)
 Lemma fstream_lower m l : forall job rank zero neg opn,
-  Forall (fun y => (m <= key y)%Q) l -> (forall b, opn = Some b -> (m <= key b)%Q) ->
-  Forall (fun y => (m <= key y)%Q) (fst (fst (fstream_o job rank zero neg opn l))).
+  Forall (tge m) l -> (forall b, opn = Some b -> tge m b) ->
+  Forall (tge m) (fst (fst (fstream_o job rank zero neg opn l))).
 Proof.
   induction l as [|x r IH]; intros job rank zero neg opn Hl Ho; cbn [fstream_o]; [leaf|].
   inversion Hl as [|? ? Hx Hr]; subst.
-  assert (N : forall b : ev, @None ev = Some b -> (m <= key b)%Q) by (intros ? [=]).
+  assert (N : forall b : ev, @None ev = Some b -> tge m b) by (intros ? [=]).
   destruct (updated job rank x) as [[x1 rk]|t] eqn:Hu; [|leaf].
-  pose proof (updated_key _ _ _ _ _ Hu) as Kx.
+  pose proof (updated_ts _ _ _ _ _ Hu) as Kx.
+  assert (Hx1 : tge m x1) by (eapply tge_eq; [exact Kx|exact Hx]).
   destruct opn as [b|].
-  - destruct (e_name b); [|leaf]. destruct (e_name x1); [|leaf].
+  - pose proof (Ho b eq_refl) as Hb.
+    destruct (e_name b); [|leaf]. destruct (e_name x1); [|leaf].
     destruct (negb _); [leaf|]. destruct (String.eqb (ph_of x1) "E"); [|leaf].
-    destruct (e_ts x1); [|leaf]. destruct (e_ts b); [|leaf].
+    destruct (e_ts x1); [|leaf]. destruct (e_ts b) eqn:Etb; [|leaf].
     cbv zeta. destruct (sane _); [|apply IH; auto|apply IH; auto].
-    rewrite (proj1 (consE_parts _ _)). constructor; [rewrite pair_key; now apply Ho|apply IH; auto].
+    rewrite (proj1 (consE_parts _ _)). constructor; [|apply IH; auto].
+    intros u Hu'. change (e_ts b = Some u) in Hu'. apply Hb. exact Hu'.
   - cbv zeta. destruct (negb _).
     + destruct (String.eqb _ _).
-      * rewrite (proj1 (consE_parts _ _)). constructor; [now rewrite Kx|apply IH; auto].
+      * rewrite (proj1 (consE_parts _ _)). constructor; [exact Hx1|apply IH; auto].
       * destruct (sane x1); [|apply IH; auto|apply IH; auto].
-        rewrite (proj1 (consE_parts _ _)). constructor; [now rewrite Kx|apply IH; auto].
-    + destruct (String.eqb _ _); [|leaf]. apply IH; auto. intros b [= <-]. now rewrite Kx.
+        rewrite (proj1 (consE_parts _ _)). constructor; [exact Hx1|apply IH; auto].
+    + destruct (String.eqb _ _); [|leaf]. apply IH; auto. intros b [= <-]. exact Hx1.
 Qed.
 
 Lemma fstream_sorted l : forall job rank zero neg opn,
-  StronglySorted kle l -> (forall b, opn = Some b -> Forall (kle b) l) ->
-  StronglySorted kle (fst (fst (fstream_o job rank zero neg opn l))).
+  tsorted l -> (forall b t, opn = Some b -> e_ts b = Some t -> Forall (tge t) l) ->
+  tsorted (fst (fst (fstream_o job rank zero neg opn l))).
 Proof.
-  induction l as [|x r IH]; intros job rank zero neg opn Hl Ho; cbn [fstream_o]; [leaf|].
-  inversion Hl as [|? ? Hs Hf]; subst.
-  assert (N : forall b : ev, @None ev = Some b -> Forall (kle b) r) by (intros ? [=]).
-  assert (N' : forall (m : Q) (b : ev), @None ev = Some b -> (m <= key b)%Q) by (intros ? ? [=]).
-  destruct (updated job rank x) as [[x1 rk]|t] eqn:Hu; [|leaf].
-  pose proof (updated_key _ _ _ _ _ Hu) as Kx.
-  assert (Fx1 : Forall (fun y => (key x1 <= key y)%Q) r) by (rewrite Kx; exact Hf).
+  induction l as [|x r IH]; intros job rank zero neg opn Hl Ho; cbn [fstream_o]; [apply tsorted_nil|].
+  apply tsorted_cons in Hl. destruct Hl as [Hs Hf].
+  assert (N : forall (b : ev) (t : Q), @None ev = Some b -> e_ts b = Some t -> Forall (tge t) r) by (intros ? ? [=]).
+  assert (N' : forall (m : Q) (b : ev), @None ev = Some b -> tge m b) by (intros ? ? [=]).
+  destruct (updated job rank x) as [[x1 rk]|t] eqn:Hu; [|apply tsorted_nil].
+  pose proof (updated_ts _ _ _ _ _ Hu) as Kx.
+  assert (Fx1 : forall t, e_ts x1 = Some t -> Forall (tge t) r) by (rewrite Kx; exact Hf).
   destruct opn as [b|].
-  - assert (Fb : Forall (fun y => (key b <= key y)%Q) r).
-    { specialize (Ho b eq_refl). now inversion Ho. }
-    destruct (e_name b); [|leaf]. destruct (e_name x1); [|leaf].
-    destruct (negb _); [leaf|]. destruct (String.eqb (ph_of x1) "E"); [|leaf].
-    destruct (e_ts x1); [|leaf]. destruct (e_ts b); [|leaf].
+  - assert (Fb : forall t, e_ts b = Some t -> Forall (tge t) r).
+    { intros t Ht. specialize (Ho b t eq_refl Ht). now inversion Ho. }
+    destruct (e_name b); [|apply tsorted_nil]. destruct (e_name x1); [|apply tsorted_nil].
+    destruct (negb _); [apply tsorted_nil|]. destruct (String.eqb (ph_of x1) "E"); [|apply tsorted_nil].
+    destruct (e_ts x1); [|apply tsorted_nil]. destruct (e_ts b) eqn:Etb; [|apply tsorted_nil].
     cbv zeta. destruct (sane _); [|apply IH; auto|apply IH; auto].
-    rewrite (proj1 (consE_parts _ _)). constructor; [apply IH; auto|].
-    unfold kle. rewrite pair_key. apply fstream_lower; auto.
+    rewrite (proj1 (consE_parts _ _)). apply tsorted_cons. split; [apply IH; auto|].
+    intros t Ht. change (e_ts b = Some t) in Ht. apply fstream_lower; auto. apply Fb. congruence.
   - cbv zeta. destruct (negb _).
     + destruct (String.eqb _ _).
-      * rewrite (proj1 (consE_parts _ _)). constructor; [apply IH; auto|apply fstream_lower; auto].
+      * rewrite (proj1 (consE_parts _ _)). apply tsorted_cons. split; [apply IH; auto|].
+        intros t Ht. apply fstream_lower; auto.
       * destruct (sane x1); [|apply IH; auto|apply IH; auto].
-        rewrite (proj1 (consE_parts _ _)). constructor; [apply IH; auto|apply fstream_lower; auto].
-    + destruct (String.eqb _ _); [|leaf]. apply IH; auto. intros b [= <-]. exact Fx1.
+        rewrite (proj1 (consE_parts _ _)). apply tsorted_cons. split; [apply IH; auto|].
+        intros t Ht. apply fstream_lower; auto.
+    + destruct (String.eqb _ _); [|apply tsorted_nil]. apply IH; auto. intros b t [= <-] Ht. now apply Fx1.
 Qed.
 
+(* the stream's timed events are raw timed events in raw order (a B/E pair is emitted at B's ts, events
+   are only dropped): if the raw events that have a ts are non-decreasing, so are the stream's *)
 Theorem raw_sorted_stream_sorted s :
-  StronglySorted kle (f_rest s) -> StronglySorted kle (file_events s).
-Proof. intros H. unfold file_events, fstream_st. apply fstream_sorted; [exact H|intros ? [=]]. Qed.
+  StronglySorted Qle (timed (f_rest s)) -> StronglySorted Qle (timed (file_events s)).
+Proof. intros H. unfold file_events, fstream_st. apply fstream_sorted; [exact H|intros ? ? [=]]. Qed.
 
 (* ------------------------------------------------------------------ statements used by props/C15.v *)
 Definition merged (files : list file) : list item := fst (fst (multi files)).
@@ -942,7 +1014,7 @@ Proof. intros H. destruct (multi_spec files H) as (out & E & _ & _ & J). unfold 
 
 Theorem merge_sorted files :
   all_ok (map init_file files) -> streams_sorted (map init_file files) ->
-  StronglySorted kle (map fst (merged files)).
+  StronglySorted Qle (timed (map fst (merged files))).
 Proof. intros H S. destruct (multi_spec files H) as (out & E & _ & So & _). unfold merged. rewrite E. now apply So. Qed.
 
 Lemma init_tokens f toks : fl_processed f = false -> fl_evs f = flatten toks ->
